@@ -10,6 +10,8 @@
 (*               (rendered static arguments), inputs |-> <<"in=parent.out">>]*)
 (*   build1, build2 |-> names of the nodes of each program's result, for   *)
 (*              two independent builds of the same case                    *)
+(*   pre, uni |-> (union cases) the descriptions of the nodes of the       *)
+(*              united actions before the union, and of the union graph    *)
 (*   steps  |-> per executed operation [op, raised, before, after] where   *)
 (*              before/after are snapshots <<action, dims, coords, node    *)
 (*              identities, payloads of those nodes (callable identity,    *)
@@ -58,6 +60,13 @@ PermCases == {[kind |-> "names", start |-> "A", p |-> <<From(pr[1]), Op(k, "", p
 SharedOps(pk) == {Op("reduce_p", pk, "", "x", 0), Op("map_p", pk, "", "", 0)} \cup (IF pk = "pbat" THEN {Op("reduce_p", pk, "", "x", 3)} ELSE {})
 SharedCases == UNION {{[kind |-> "names", start |-> "A", p |-> <<From(s1), o1>>, q |-> <<From(s2), o2>>] :
                           s1 \in {"A", "E", "D"}, s2 \in {"A", "E", "D"}, o1 \in SharedOps(pk), o2 \in SharedOps(pk)} : pk \in {"pdef1", "pbat", "pargs"}}
+\* (U) unions: Y is a generator source (one node, three outputs spread over the dimension y), so the nodes of Y.map(f) carry
+\*     the same payload and read different outputs of ONE node; the source and the results of both programs are united by
+\*     Cascade.from_actions / Cascade + Cascade / += (which de-duplicates); also from the plain source A
+UPrograms(s) == UNION {{<<Op("map", f, "", "", 0)>>, <<Op("map", f, "", "", 0), Op("sum", "", "", IF s = "Y" THEN "y" ELSE "x", 0)>>,
+                        <<Op("map", f, "", "", 0), Op("map", "par2", "", "", 0)>>} : f \in {"par1", "def1"}}
+UnionCases == UNION {{[kind |-> "names", start |-> s, p |-> p, q |-> q, union |-> u] :
+                        p \in UPrograms(s), q \in UPrograms(s), u \in {"from_actions", "add", "iadd"}} : s \in {"Y", "A"}}
 \* (S) two sources, created by one from_source call or by two
 SrcCallables == {"slam1", "slam2", "sdef1", "sdef2", "spar1", "spar2"}
 SourceCases == {[kind |-> "sources", start |-> "", p |-> <<Op("source", c1, "", IF one THEN "one_call" ELSE "two_calls", 0)>>,
@@ -99,11 +108,12 @@ Post(c, r) ==
   IN  {"NameInjective:" \o CollisionKind(x[1], x[2]) : x \in clashes}
  \cup (IF r.build1 = r.build2 THEN {} ELSE {"Deterministic"})
  \cup {"OperandsIntact:" \o r.steps[k].op : k \in {k \in DOMAIN r.steps : r.steps[k].before # r.steps[k].after}}
+ \cup (IF "union" \in DOMAIN c /\ SetOf(r.uni) # SetOf(r.pre) THEN {"NameInjective:union_lost_or_rewired_a_computation"} ELSE {})
  \cup (IF c.kind # "operands" /\ \E k \in DOMAIN r.steps : r.steps[k].raised THEN {"raised"} ELSE {})
  \cup (IF c.kind # "operands" /\ Len(r.steps) # 2 * (Len(c.p) + Len(c.q)) THEN {"program_not_executed"} ELSE {})
 
 \* ======================================================================== the two TLC passes
-Generate == JsonSerialize(IOEnv.CASES_FILE, SetToSeq(NameCases) \o SetToSeq(PermCases) \o SetToSeq(SharedCases) \o SetToSeq(SourceCases) \o SetToSeq(OperandCases) \o SetToSeq(TwiceCases) \o SetToSeq(SliceCases))
+Generate == JsonSerialize(IOEnv.CASES_FILE, SetToSeq(NameCases) \o SetToSeq(PermCases) \o SetToSeq(SharedCases) \o SetToSeq(UnionCases) \o SetToSeq(SourceCases) \o SetToSeq(OperandCases) \o SetToSeq(TwiceCases) \o SetToSeq(SliceCases))
 \* names are also compared ACROSS cases: G = every node description of the whole run, Amb = names with two computations
 Judge ==
   LET cs == JsonDeserialize(IOEnv.CASES_FILE)
